@@ -1,7 +1,15 @@
+(* (caller's array afterwards, returned array, returned object is the argument) *)
+let p_obs ((a, r), same) = ps "["; p_mat p_q a; ps ","; p_mat p_q r; ps ","; p_bool same; ps "]"
+(* weight_conversion: "raise" = NotImplementedError, "nan" = normalize of the all-zero matrix *)
+let p_wc p = function None -> ps "\"raise\"" | Some None -> ps "\"nan\"" | Some (Some x) -> p x
 let dispatch = function
   | "ta" -> let w = next_mat next_q in let thr = next_q () in p_mat p_q (run_ta w thr)
   | "tp" -> let w = next_mat next_q in let p = next_q () in p_opt (p_mat p_q) (run_tp w p)
   | "wc" -> let w = next_mat next_q in let m = next_nat () in p_mat p_q (run_wc w m)
   | "round" -> let x = next_q () in p_z (run_round x)
+  | "st_ta" -> let w = next_mat next_q in let thr = next_q () in let c = next_bool () in p_obs (run_st_ta w thr c)
+  | "st_tp" -> let w = next_mat next_q in let p = next_q () in let c = next_bool () in p_opt p_obs (run_st_tp w p c)
+  | "st_wc" -> let w = next_mat next_q in let m = next_list next_nat in let c = next_bool () in p_wc p_obs (run_st_wc w m c)
+  | "wc_str" -> let w = next_mat next_q in let m = next_list next_nat in p_wc (p_mat p_q) (run_wc_str w m)
   | f -> failwith ("unknown function " ^ f)
 let () = main dispatch
